@@ -618,7 +618,7 @@ def absorb_helpers(fns, addr_taken, known):
         else:
             out.append(f)
     for f in out:
-        if f.name in into and byname.get(f.name).raw is f.raw:
+        if f.name in into and f.static and f.file == byname[f.name].file:
             f.absorbed_into = into[f.name]
     return out, set(into)
 
